@@ -126,10 +126,19 @@ def minimize_noise(show_warnings, ui, for_profiling):  # pylint: disable=too-man
         else:
             msg += "{ind}Error: " + escape_braces(output)
 
-    if not success and show_warnings:
-        ui.warning(msg)
+    denoise_result = DenoiseResult(success, msg, use_nice, use_shielding, result)
 
-    return DenoiseResult(success, msg, use_nice, use_shielding, result)
+    if not success and show_warnings:
+        try:
+            ui.warning(msg)
+        except BaseException:
+            # The system settings are already changed, but the caller does not get
+            # the result it needs to restore them, for instance when the output
+            # is a pipe and its reader is gone. Restore them here.
+            restore_noise(denoise_result, False, ui)
+            raise
+
+    return denoise_result
 
 
 def restore_noise(denoise_result, show_warning, ui):
